@@ -77,7 +77,12 @@ let () =
             else begin Hashtbl.replace invoked i (); Some (Inv (i, OpWrite (k, v))) end) !logkv in
           let h = front @ h in
           Printf.printf "%s WF %s\n" id (if wf_histb h then "true" else "false");
-          Printf.printf "%s LIN %s\n" id (if check_log h !log obs_l then "ok" else "bad");
+          (* check_log h log obs_l = check_witness h (weave h log (assoc_nat . obs_l)); the
+             association list is replaced by a hash table with the same content *)
+          let tbl = Hashtbl.create 256 in
+          List.iter (fun (i, o) -> if not (Hashtbl.mem tbl i) then Hashtbl.add tbl i o) obs_l;
+          let obsf i = try Hashtbl.find tbl i with Not_found -> O in
+          Printf.printf "%s LIN %s\n" id (if check_witness h (weave h !log obsf) then "ok" else "bad");
           Printf.printf "%s FINAL %s\n" id (show_state (log_state h !log))
         with Failure _ | Invalid_argument _ -> Printf.printf "%s UNPARSED\n" id)
       | id :: _ -> Printf.printf "%s UNPARSED\n" id
